@@ -2,7 +2,7 @@ package c09
 
 // skipTable: see the comment on skipEntry in funcs.go. Entries are added only
 // after the construct was observed to hang on the real interpreter; each names
-// the finding (findings/C09.json, "witness": null) it belongs to. Constructs
+// the finding (findings/C09.json, witness = a probe case) it belongs to. Constructs
 // that are non-terminating by the language definition are handled by
 // byDefinition (funcs.go) and fmtRisk (format.go).
 var skipTable = []skipEntry{
